@@ -25,6 +25,7 @@ import weakref
 import numpy as np
 
 from .. import gen, ref
+from ._c14_c15_views import share_a_table, table_views
 
 ID = "C15"
 LEVEL = "exploration"
@@ -44,6 +45,10 @@ RULE = (
     "Serialisation histories: fitted estimators through pickle (all protocols), copy.deepcopy, copy.copy and copies of copies, judged "
     "against the original's fitted points, the original re-used after being copied. Large cases: median_distance with n*(k+1) >= 2e6 "
     "(brute force on a subsample that contains the first and the very last points) and predict on more than 131072 points. "
+    "Argument aliasing: easting and northing (fit, queries, median_distance, distance_mask) as column views of ONE table in every order "
+    "and direction, twinned with contiguous copies. Ownership histories: after fit on C-contiguous float64 arrays (1-D / 2-D data, table "
+    "views as coordinates) the caller detrends / reuses / negates the data buffer, shifts / overwrites the coordinates and scribbles on a "
+    "returned prediction, then predicts with the earlier fitted gridder. "
     "KNeighbors: k in {1,2,3,n-1,n,random}, reductions mean/median/min/max (+sum/ptp), data values unique per point, queries inside, "
     "outside and on the data, direct predict and nested through grid/scatter/profile/Chain/project_grid. median_distance: k=1..n-1. "
     "distance_mask: maxdist from the quantiles of the true nearest distances (also 0, huge, exactly a realised distance), array form "
@@ -131,6 +136,18 @@ FLOORS = {
         "class:knn_predict_on_copy_made_by_deepcopy": 24, "class:knn_predict_on_copy_made_by_copy": 24,
         "copies:copy_refitted_then_original_used": 7, "class:knn_predict_on_more_than_131072_points": 1,
         "class:median_points_times_k_plus_1_at_least_2e6": 1, "median_large_rows_judged": 160,
+        "class:knn_fit_coordinates_are_views_of_one_table": 190, "class:knn_query_coordinates_are_views_of_one_table": 275,
+        "class:median_coordinates_are_views_of_one_table": 50, "class:mask_data_coordinates_are_views_of_one_table": 44,
+        "class:mask_query_coordinates_are_views_of_one_table": 11, "eval:aliasing_twin.KNeighbors.fit": 265,
+        "eval:aliasing_twin.KNeighbors.predict": 175, "eval:aliasing_twin.distance_mask": 48,
+        "eval:aliasing_twin.median_distance": 43, "eval:KNeighbors.state_owned_by_estimator": 85, "aliasing:columns_0_1": 30,
+        "aliasing:columns_1_0_northing_stored_first": 60, "aliasing:columns_of_a_wider_table": 30,
+        "aliasing:fortran_ordered_table": 28, "aliasing:fortran_ordered_table_northing_first": 28,
+        "aliasing:last_axis_of_a_3d_table": 85, "aliasing:reversed_rows": 27, "aliasing:unpacked_transpose_northing_first": 30,
+        "ownership:caller_detrend_data": 8, "ownership:caller_negate_data": 8, "ownership:caller_reuse_data_buffer": 7,
+        "ownership:caller_overwrite_coordinates": 11, "ownership:caller_shift_coordinates": 12,
+        "ownership:caller_scribble_on_prediction": 24, "ownership:2d_data": 5, "ownership:coordinates_are_views_of_one_table": 9,
+        "ownership:table_columns_0_1": 1, "ownership:table_fortran_ordered_table": 1,
     },
     "thorough": {
         "eval:KNeighbors.predict": 25500, "eval:median_distance": 5400, "eval:distance_mask.array": 7650,
@@ -193,11 +210,26 @@ FLOORS = {
         "class:knn_predict_on_copy_made_by_deepcopy": 360, "class:knn_predict_on_copy_made_by_copy": 360,
         "copies:copy_refitted_then_original_used": 105, "class:knn_predict_on_more_than_131072_points": 5,
         "class:median_points_times_k_plus_1_at_least_2e6": 5, "median_large_rows_judged": 1500,
+        "class:knn_fit_coordinates_are_views_of_one_table": 2850, "class:knn_query_coordinates_are_views_of_one_table": 4125,
+        "class:median_coordinates_are_views_of_one_table": 750, "class:mask_data_coordinates_are_views_of_one_table": 660,
+        "class:mask_query_coordinates_are_views_of_one_table": 165, "eval:aliasing_twin.KNeighbors.fit": 3975,
+        "eval:aliasing_twin.KNeighbors.predict": 2625, "eval:aliasing_twin.distance_mask": 720,
+        "eval:aliasing_twin.median_distance": 645, "eval:KNeighbors.state_owned_by_estimator": 1275, "aliasing:columns_0_1": 450,
+        "aliasing:columns_1_0_northing_stored_first": 900, "aliasing:columns_of_a_wider_table": 450,
+        "aliasing:fortran_ordered_table": 420, "aliasing:fortran_ordered_table_northing_first": 420,
+        "aliasing:last_axis_of_a_3d_table": 1275, "aliasing:reversed_rows": 405,
+        "aliasing:unpacked_transpose_northing_first": 450, "ownership:caller_detrend_data": 120,
+        "ownership:caller_negate_data": 120, "ownership:caller_reuse_data_buffer": 105,
+        "ownership:caller_overwrite_coordinates": 165, "ownership:caller_shift_coordinates": 180,
+        "ownership:caller_scribble_on_prediction": 360, "ownership:2d_data": 75,
+        "ownership:coordinates_are_views_of_one_table": 135, "ownership:table_columns_0_1": 15,
+        "ownership:table_fortran_ordered_table": 15,
     },
 }
 JOBS = {"quick": 1, "thorough": 8}
 CASE_TIMEOUT_S = 120
 
+ALIAS_KIND = {}  # id(easting view) -> how the table views were made (workload bookkeeping for the counters)
 COPY_OF = weakref.WeakKeyDictionary()  # restored / copied estimator -> (the estimator it was made from, how)
 TIE_REL = 1e-9
 EPS = ref.EPS
@@ -205,8 +237,8 @@ EPS = ref.EPS
 
 def plan(tier):
     if tier == "quick":
-        return collections.OrderedDict(knn=360, knn_nested=60, median=300, mask=300, mask_grid=300, mask_exact=200, knn_copies=60, large=2)
-    return collections.OrderedDict(knn=5400, knn_nested=900, median=4500, mask=4500, mask_grid=4500, mask_exact=3000, knn_copies=900, large=16)
+        return collections.OrderedDict(knn=360, knn_nested=60, median=300, mask=300, mask_grid=300, mask_exact=200, knn_copies=60, knn_ownership=60, large=2)
+    return collections.OrderedDict(knn=5400, knn_nested=900, median=4500, mask=4500, mask_grid=4500, mask_exact=3000, knn_copies=900, knn_ownership=900, large=16)
 
 
 # ----------------------------------------------------------------------
@@ -546,6 +578,8 @@ def install(tap, run):
                           {"coordinates": [px, py], "extras": [np.asarray(c) for c in coords[2:]], "have": repr(have)}, key="fit:attributes")
         run.count("class:knn_fit_data_container_" + container_class(a["data"]))
         run.count("class:knn_fit_coordinates_container_" + container_class(coords[0]))
+        if share_a_table(coords[0], coords[1]):
+            run.count("class:knn_fit_coordinates_are_views_of_one_table")
         for what, obj in (("data", a["data"]), ("coordinates", coords[0])):
             kind = index_class(obj)
             if kind:
@@ -622,6 +656,8 @@ def install(tap, run):
             run.count("class:knn_query_container_" + container_class(coords[0]))
         if q0.size == 1:
             run.count("class:knn_single_query_point_as_" + spelling(coords[0]))
+        if share_a_table(coords[0], coords[1]):
+            run.count("class:knn_query_coordinates_are_views_of_one_table")
         if snap.get("bad_extras"):
             run.count("class:knn_predict_after_fit_with_non_finite_extras")
             if k == n:
@@ -721,6 +757,8 @@ def install(tap, run):
         run.evaluated("median_distance")
         run.count("class:median_k=%s" % ("1" if k == 1 else "n-1" if k == n - 1 else "2..n-2"))
         run.count("class:median_input_%dd" % c0.ndim)
+        if share_a_table(coords[0], coords[1]):
+            run.count("class:median_coordinates_are_views_of_one_table")
         if not np.any(c0) or not np.any(c1):
             run.count("class:median_easting_or_northing_all_zero")
         if len(coords) > 2 and any(not np.any(np.asarray(c)) for c in coords[2:]):
@@ -850,6 +888,10 @@ def install(tap, run):
             run.count("class:mask_extra_coordinates")
         run.count("class:mask_query_%dd" % q0.ndim)
         run.count("class:mask_maxdist_spelled_" + spelling(a["maxdist"]))
+        if share_a_table(dc[0], dc[1]):
+            run.count("class:mask_data_coordinates_are_views_of_one_table")
+        if coords is not None and share_a_table(coords[0], coords[1]):
+            run.count("class:mask_query_coordinates_are_views_of_one_table")
         if dx.size == 1:
             run.count("class:mask_single_data_point_as_" + spelling(dc[0]))
         if coords is not None and q0.size == 1:
@@ -1059,6 +1101,13 @@ def _present(rng, arrays, allow_0d=False, python_ok=True):
     mode = int(rng.integers(0, 5))
     if size == 1 and allow_0d and rng.random() < 0.7:
         return spell_point(rng, [a[0] for a in arrays], python_ok=python_ok)
+    if len(arrays) >= 2 and rng.random() < 0.18:
+        # argument aliasing: easting and northing as column views of ONE common table (every order and direction)
+        shp = _shape_2d(rng, size) if rng.random() < 0.3 else None
+        shaped = [np.asarray(a).reshape(shp) for a in arrays] if shp is not None else [np.asarray(a) for a in arrays]
+        ev, nv, kind, _ = table_views(rng, shaped[0], shaped[1])
+        ALIAS_KIND[id(ev)] = kind
+        return (ev, nv) + tuple(np.ascontiguousarray(a) for a in shaped[2:]), "table_views"
     shp = _shape_2d(rng, size) if mode in (1, 2) else None
     if shp is not None:
         out = [a.reshape(shp) for a in arrays]
@@ -1131,13 +1180,25 @@ def _poisoned_extras(rng, east, north):
     return extras
 
 
-def _twin(run, what, with_extras, without):
+def _twin(run, what, with_extras, without, monitor="extras_ignored", label="non-finite extra coordinates"):
     """Metamorphic twin: the result with (easting, northing, extras...) equals the result with (easting, northing)."""
-    run.evaluated("extras_ignored." + what)
+    run.evaluated(monitor + "." + what)
     a, b = np.asarray(with_extras), np.asarray(without)
     if a.shape != b.shape or not np.array_equal(a, b, equal_nan=a.dtype.kind == "f"):
-        run.violation("extras_ignored." + what, "non-finite extra coordinates changed the result of %s" % what,
-                      {"with_extras": a, "two_coordinates": b}, key="extras:" + what)
+        run.violation(monitor + "." + what, "%s changed the result of %s" % (label, what),
+                      {"result": a, "twin_result": b}, key=monitor + ":" + what)
+
+
+def _copies(coords):
+    return tuple(np.array(c, order="C", copy=True) if isinstance(c, np.ndarray) else c for c in coords)
+
+
+def _aliased(run, coords):
+    """Bookkeeping + test: are the first two arrays views of one table?"""
+    if len(coords) >= 2 and share_a_table(coords[0], coords[1]):
+        run.count("aliasing:" + ALIAS_KIND.get(id(coords[0]), "unknown"))
+        return True
+    return False
 
 
 def _extra_coordinate(rng, n):
@@ -1267,6 +1328,10 @@ def _knn_case(run, verde, rng):
         warnings.simplefilter("ignore")
         est.fit((east_in, north_in, *extra_in), data_in, weights=weights)
     twin = verde.KNeighbors(k=k, reduction=reduction).fit((east, north), data) if poisoned and extra_in else None
+    fit_twin = None
+    if _aliased(run, (east_in, north_in)):
+        # the same fit on contiguous copies of the same values
+        fit_twin = verde.KNeighbors(k=k, reduction=reduction).fit(_copies((east_in, north_in)), data_in)
     for _ in range(int(rng.integers(1, 4))):
         qx, qy = _queries(rng, east, north)
         if lattice and rng.random() < 0.6:  # lattice mid-points: exact distance ties
@@ -1283,6 +1348,10 @@ def _knn_case(run, verde, rng):
         pred = est.predict(query)
         if twin is not None:
             _twin(run, "KNeighbors.predict", pred, twin.predict(tuple(query[:2])))
+        if fit_twin is not None:
+            _twin(run, "KNeighbors.fit", pred, fit_twin.predict(query), monitor="aliasing_twin", label="table views instead of contiguous copies")
+        if _aliased(run, query):
+            _twin(run, "KNeighbors.predict", pred, est.predict(_copies(query)), monitor="aliasing_twin", label="table views instead of contiguous copies")
     if rng.random() < 0.15:  # refit the same object on other data: the monitor must follow
         east2, north2 = gen.cloud(rng, max(n, 2))
         data2 = _unique_data(rng, east2.size)
@@ -1348,6 +1417,9 @@ def _median_case(run, verde, rng):
         out = verde.median_distance(coords, k_nearest=spell_int(rng, k, zero_d=True), projection=projection)
         if poisoned:
             _twin(run, "median_distance", out, verde.median_distance(tuple(coords[:2]), k_nearest=k, projection=projection))
+        if _aliased(run, coords):
+            _twin(run, "median_distance", out, verde.median_distance(_copies(coords), k_nearest=k, projection=projection),
+                  monitor="aliasing_twin", label="table views instead of contiguous copies")
     run.sample("median", {"coordinates": list(coords[:2]), "k_nearest": k, "projection": repr(projection), "result": out})
 
 
@@ -1426,6 +1498,10 @@ def _mask_case(run, verde, rng):
         out = verde.distance_mask(data_coords, spell_number(rng, maxdist), coordinates=query, projection=projection)
         if poisoned_query or poisoned_data:
             _twin(run, "distance_mask", out, verde.distance_mask(tuple(data_coords[:2]), maxdist, coordinates=tuple(query[:2]), projection=projection))
+        alias_data, alias_query = _aliased(run, data_coords), _aliased(run, query)
+        if alias_data or alias_query:
+            _twin(run, "distance_mask", out, verde.distance_mask(_copies(data_coords), maxdist, coordinates=_copies(query), projection=projection),
+                  monitor="aliasing_twin", label="table views instead of contiguous copies")
     run.sample("mask", {"data_coordinates": list(data_coords[:2]), "maxdist": maxdist, "projection": repr(projection),
                         "query_shape": list(np.shape(query[0])), "mask": out})
 
@@ -1684,6 +1760,81 @@ def _knn_copies_case(run, verde, rng):
                               "prediction": first})
 
 
+def _knn_ownership_case(run, verde, rng):
+    """
+    Result / state ownership history: fit on C-contiguous float64 arrays the caller owns (1-D or 2-D data, coordinates also as
+    views of one table), then the CALLER changes those same arrays in place (detrend, reuse the buffer for another survey,
+    shift the coordinates, scribble on a returned prediction) and predicts with the earlier fitted gridder: predictions must
+    still be the reduction of the values it was fitted with (the monitor judges against its copy taken at fit time).
+    """
+    n = max(_n_points(rng), 2)
+    east, north = gen.cloud(rng, n)
+    in_place_columns = rng.random() < 0.25  # easting really is column 0 of a (n, 2) table: a zero-copy tree would live in it
+    shape = _shape_2d(rng, n) if rng.random() < 0.4 and not in_place_columns else None
+    if shape is not None:
+        east, north = east.reshape(shape), north.reshape(shape)
+    data = np.array(_unique_data(rng, n).reshape(east.shape), dtype="float64", order="C", copy=True)
+    table = None
+    if in_place_columns or rng.random() < 0.3:
+        east_c, north_c, kind, table = table_views(rng, east, north, kind=str(rng.choice(["columns_0_1", "fortran_ordered_table"])) if in_place_columns else None)
+        run.count("ownership:coordinates_are_views_of_one_table")
+        run.count("ownership:table_" + kind)
+    else:
+        east_c, north_c = np.array(east, dtype="float64", order="C"), np.array(north, dtype="float64", order="C")
+    assert data.flags.c_contiguous and data.flags.owndata
+    if shape is not None:
+        run.count("ownership:2d_data")
+    k = 1 if rng.random() < 0.35 else _k_choice(rng, n)
+    reduction = REDUCTIONS[int(rng.integers(0, len(REDUCTIONS)))]
+    est = verde.KNeighbors(k=spell_int(rng, k), reduction=reduction).fit((east_c, north_c), data)
+    qx, qy = _queries(rng, np.ravel(east), np.ravel(north), 1 if rng.random() < 0.25 else int(rng.integers(5, 60)))
+    last = est.predict((qx.copy(), qy.copy()))
+    first = np.array(last, copy=True)
+    extent = float(max(np.ptp(east), np.ptp(north))) or 1.0
+    # every history changes the data, the coordinates and a returned prediction at least once (in random order)
+    ops = [str(rng.choice(["detrend_data", "reuse_data_buffer", "negate_data"])), str(rng.choice(["shift_coordinates", "overwrite_coordinates"])),
+           "scribble_on_prediction"] + [str(v) for v in rng.choice(["detrend_data", "reuse_data_buffer", "negate_data", "shift_coordinates",
+                                                                    "overwrite_coordinates", "zero_everything"], int(rng.integers(0, 2)))]
+    for op in [ops[int(j)] for j in rng.permutation(len(ops))]:
+        if op == "detrend_data":
+            data -= data.mean()
+            data -= 1.0
+        elif op == "reuse_data_buffer":
+            data[...] = rng.normal(size=data.shape) * 1e3
+        elif op == "negate_data":
+            data *= -1.0
+            data += 7.0
+        elif op == "shift_coordinates":
+            east_c += 10.0 * extent
+            north_c *= -1.0
+        elif op == "overwrite_coordinates":
+            if table is not None:
+                table[...] = rng.uniform(-1, 1, table.shape) * extent
+            else:
+                east_c[...] = rng.uniform(-1, 1, east_c.shape) * extent
+                north_c[...] = rng.uniform(-1, 1, north_c.shape) * extent
+        elif op == "scribble_on_prediction" and last is not None:
+            last *= 0.0
+            last -= 12345.0
+        else:
+            op = "zero_everything"
+            data[...] = 0.0
+            east_c[...] = 0.0
+            north_c[...] = 0.0
+        run.count("ownership:caller_" + op)
+        last = est.predict((qx.copy(), qy.copy()))  # judged by the monitor against the values seen at fit time
+        run.evaluated("KNeighbors.state_owned_by_estimator")
+        if not np.array_equal(np.asarray(last), first):
+            bad = int(np.flatnonzero(np.ravel(np.asarray(last)) != np.ravel(first))[0])
+            run.violation("KNeighbors.state_owned_by_estimator",
+                          "after the caller %s in place, the fitted gridder predicts %r instead of %r at query %d"
+                          % (op, float(np.ravel(last)[bad]), float(np.ravel(first)[bad]), bad),
+                          {"operation": op, "k": k, "reduction": reduction.__name__, "prediction_before": first, "prediction_after": np.asarray(last)},
+                          key="ownership:" + op)
+            first = np.array(last, copy=True)  # report each cause once
+    run.sample("knn_ownership", {"n_points": n, "data_shape": list(data.shape), "k": k, "reduction": reduction.__name__, "prediction": first})
+
+
 def _large_case(run, verde, rng, index):
     """Large counts judged by brute force instead of by the absence of an exception."""
     if index % 2 == 0:
@@ -1728,6 +1879,8 @@ def run_case(run, tap, stream, index, rng):
         _mask_exact_case(run, verde, rng)
     elif stream == "knn_copies":
         _knn_copies_case(run, verde, rng)
+    elif stream == "knn_ownership":
+        _knn_ownership_case(run, verde, rng)
     elif stream == "large":
         _large_case(run, verde, rng, index)
     else:
